@@ -81,7 +81,7 @@ type Contracts struct {
 
 var clauseKinds = map[string]bool{"requires": true, "ensures": true, "invariant": true, "returns": true,
 	"fswrite": true, "assume": true, "assert": true, "params": true, "pure": true, "replay": true, "sweep": true,
-	"decreases": true, "opt": true, "frame": true, "impure": true, "guide": true, "at-call": true, "ghost": true, "sets": true, "slice-invariant": true, "watch": true, "ensures-bounded": true, "modifies": true, "each": true, "ensures-local": true, "havocs": true, "fsread": true}
+	"decreases": true, "opt": true, "frame": true, "impure": true, "guide": true, "at-call": true, "ghost": true, "sets": true, "slice-invariant": true, "watch": true, "ensures-bounded": true, "modifies": true, "each": true, "ensures-local": true, "assume-at-call": true, "havocs": true, "fsread": true}
 
 var theoremRe = regexp.MustCompile(`^(\S+)\s*\(([^)]*)\)\s*:\s*(.*)$`)
 var lemmaPatRe = regexp.MustCompile(`^([A-Za-z_][A-Za-z0-9_.]*)\(([^)]*)\)\s*`)
@@ -349,7 +349,7 @@ func (cs *Contracts) parseContractFile(file string, repo bool, pkgPath string) e
 					c.Callee = rest[:i]
 					rest = strings.TrimSpace(rest[i+1:])
 				}
-				if word == "at-call" {
+				if word == "at-call" || word == "assume-at-call" {
 					// at-call CALLEE label: expr   (a0, a1, ... name the call arguments)
 					i := strings.IndexAny(rest, " \t")
 					if i < 0 {
